@@ -5,7 +5,8 @@
    Impl  (Impl/CAssemble.v): cencoding.pyx _assemble_objects + the call shapes of core.read_col
          (v1: carried row index) and core.read_data_page_v2 (slice, prev_i = 0). *)
 From Coq Require Import NArith List Bool.
-From Pq Require Import Format.Nested Impl.CAssemble Proofs.NestedProofs Proofs.CAssembleProofs.
+From Pq Require Import Format.Nested Impl.CAssemble Proofs.NestedProofs Proofs.CAssembleProofs
+  Proofs.CAssemblePagesProofs.
 Import ListNotations.
 Open Scope N_scope.
 
@@ -18,11 +19,41 @@ Theorem C15_assemble_shred : forall (V : Type) (sh : shape) (rows : list (row V)
 Proof. exact assemble_shred. Qed.
 Print Assumptions C15_assemble_shred.
 
+(* impl, PARTIAL.  Full statement (the property's quantifier inside the model): for EVERY cut of an
+   accepted level/value stream into non-empty v1 pages,  run_v1 sh (length rows) pages = AOk rows.
+   That is false on the model of today's code (C15_null_continuation_refuted,
+   C15_three_page_row_refuted below).  Proved: it holds for every stream the spec decoder accepts
+   (no bound on rows, list lengths, number of pages) and every cut that satisfies good_split:
+   each page is non-empty and either starts a row (cut at a row boundary), or the part of the
+   continued row that it holds contains a non-null element before the next row starts, or it is
+   the last page and holds only the continuation.  pages_aligned: each page carries exactly the
+   values its definition levels announce (what a data page is).  run_v1 = the fold of
+   _assemble_objects over the pages with read_col's carried row index and the parameters
+   read_col computes from schema.py (null, max_defi). *)
+Theorem C15_pages_partial :
+  forall (V : Type) (sh : shape) (es : list entry) (vs : list V) (rows : list (row V)) (pages : list (page V)),
+    assemble_spec sh es vs = Some rows ->
+    pages_stream pages = (es, vs) ->
+    pages_aligned sh pages = true -> good_split sh pages = true ->
+    run_v1 sh (length rows) pages = AOk rows.
+Proof. exact pages_v1_spec. Qed.
+Print Assumptions C15_pages_partial.
+
+(* the parameters read_col derives through schema.py (max_repetition_level, max_definition_level,
+   null = not is_required(path[0])) for the three-level LIST / MAP leaf paths are the
+   specification's levels *)
+Theorem C15_schema_levels : forall sh : shape,
+  sch_max_rep (shape_path sh) = 1 /\ sch_max_def (shape_path sh) = max_def sh /\
+  call_null (shape_path sh) = row_opt sh.
+Proof. intro sh. repeat split. apply sch_max_rep_shape. apply sch_max_def_shape. apply call_null_shape. Qed.
+Print Assumptions C15_schema_levels.
+
 (* .pyx defect 1 (open finding): continuation of a row across a v1 page boundary whose continued
    part holds only null elements moves elements into the next row *)
 Theorem C15_null_continuation_refuted :
   exists (sh : shape) (rows : list (row N)) (pages : list (page N)) (wrong : list (row N)),
     wf_rows sh rows = true /\ pages_stream pages = shred sh rows /\ nonempty_pages pages /\
+    pages_aligned sh pages = true /\ good_split sh pages = false /\
     run_v1 sh (length rows) pages = AOk wrong /\ wrong <> rows.
 Proof. exact null_continuation_refuted. Qed.
 Print Assumptions C15_null_continuation_refuted.
@@ -32,6 +63,7 @@ Print Assumptions C15_null_continuation_refuted.
 Theorem C15_three_page_row_refuted :
   exists (sh : shape) (rows : list (row N)) (pages : list (page N)),
     wf_rows sh rows = true /\ pages_stream pages = shred sh rows /\ nonempty_pages pages /\
+    pages_aligned sh pages = true /\ good_split sh pages = false /\
     run_v1 sh (length rows) pages = AErr (OobWrite (length rows)).
 Proof. exact three_page_row_refuted. Qed.
 Print Assumptions C15_three_page_row_refuted.
@@ -52,5 +84,7 @@ Example C15_nonvacuous :
   wf_rows sh rows = true /\
   shred sh rows = ([(0,3);(1,2);(1,3);(0,0);(0,1);(0,2)], [1;3]) /\
   assemble_spec sh (fst (shred sh rows)) (snd (shred sh rows)) = Some rows /\
-  run_v1 sh 4 [([(0,3);(1,2)], [1]); ([(1,3);(0,0)], [3]); ([(0,1);(0,2)], [])] = AOk rows.
+  let pages := [([(0,3);(1,2)], [1]); ([(1,3);(0,0)], [3]); ([(0,1);(0,2)], [])] in
+  pages_stream pages = shred sh rows /\ pages_aligned sh pages = true /\ good_split sh pages = true /\
+  run_v1 sh 4 pages = AOk rows.
 Proof. vm_compute. repeat split; reflexivity. Qed.
